@@ -77,7 +77,7 @@ def shards(tier):
 def _vectors(dim, tier):
     vs = A.vectors(dim, tier)
     if tier != "thorough":
-        vs = vs[::3] + ([v for v in vs if v.has("near_axis")][:1] if dim >= 3 else [])
+        vs = A.representatives(vs, (len(vs) + 2) // 3)
     return vs
 
 
